@@ -28,6 +28,9 @@ FRAGMENTS = [
     '{\n    "a": 1\n}\n', '--- a\n+++ b\n', '@@ -1 +1 @@\n', '+x\n', '-y\n',
     '#...diff: length=11\nliteral 12\n', '#...diff:\ndelta 3\nliteral 5\nx',
     '#...diff: length=9\n...\nliteral 1\n',
+    '#...diff: length=3\n...', '#...diff:\ndelta 3\n...', '...',
+    '#...diff: length=11\ndelta 3\n...\n#..file:\n',
+    '#...diff: length=4\n...\n#.change:\n',
     '+x...\n', ' retry later...\n', '...\r\n', 'a...b\n', '....\n',
     '#.change: encoding=UTF-8\n', '#..file: encoding=utf_8\n',
     '#...meta: encoding=Utf8, format=json, length=3\n',
@@ -176,7 +179,11 @@ def benign_program(program):
             elif len(t) % 5 == 1:
                 t = 'delta %d\n...\nliteral 7\n' % len(t) + t
 
-            if len(t) % 7 == 3:
+            if len(t) % 11 == 2:
+                # nothing but marker lines, and another section after it
+                t = ['delta 5\n...\n', '...\n', 'delta 1\n',
+                     'delta 2\ndelta 3\n'][len(t) % 4]
+            elif len(t) % 7 == 3:
                 # a last line that ends in an ellipsis
                 t = t.rstrip('\r\n') + ' and later...\n'
 
